@@ -65,6 +65,32 @@ def rpartition (s sep : Str) : Str × Str × Str :=
   | some ba => (ba.1, sep, ba.2)
   | none => (s, [], [])
 
+/-! ### replace -/
+
+/-- `s.replace(old, new, count)` for a NON-EMPTY `old`: scan left to right; `skip` counts the
+    characters of a matched `old` that are still to be skipped.  At each position (with `skip = 0`):
+    if `count ≠ 0` and `old` is a prefix of the rest, emit `new`, skip `old`, decrement a positive
+    count (a negative count means "no limit"); otherwise emit the character. -/
+def replaceGo (old new : Str) : Str → Nat → Int → Str
+  | [], _, _ => []
+  | _ :: rest, skip + 1, count => replaceGo old new rest skip count
+  | c :: rest, 0, count =>
+    if count ≠ 0 ∧ old.isPrefixOf (c :: rest) then
+      new ++ replaceGo old new rest (old.length - 1) (if count > 0 then count - 1 else count)
+    else c :: replaceGo old new rest 0 count
+
+/-- `s.replace('', new, count)`: insert `new` before every character and at the end, at most
+    `count` insertions when `count ≥ 0` (`'abc'.replace('', 'x') = 'xaxbxcx'`) -/
+def replaceEmpty (new : Str) : Str → Int → Str
+  | [], count => if count ≠ 0 then new else []
+  | c :: rest, count =>
+    if count ≠ 0 then new ++ c :: replaceEmpty new rest (if count > 0 then count - 1 else count)
+    else c :: rest
+
+/-- `s.replace(old, new, count)` -/
+def replace (s old new : Str) (count : Int) : Str :=
+  if old.isEmpty then replaceEmpty new s count else replaceGo old new s 0 count
+
 end PySpec
 
 /-! ## the specifications mean what they say -/
@@ -204,6 +230,70 @@ theorem splitLast_none {sep s : Str} (h : splitLast sep s = none) :
     ∀ j, j ≤ s.length → sep.isPrefixOf (s.drop j) = false :=
   splitLast_some.splitLast_none_aux h
 
+/-! ### replace: the scan replaces exactly the first occurrence and continues behind it -/
+
+/-- skipping is dropping -/
+theorem replaceGo_skip (old new : Str) (s : Str) (k : Nat) (c : Int) :
+    replaceGo old new s k c = replaceGo old new (s.drop k) 0 c := by
+  induction s generalizing k with
+  | nil => simp [replaceGo]
+  | cons a s ih =>
+    cases k with
+    | zero => rfl
+    | succ k => rw [replaceGo, ih]; rfl
+
+/-- the defining equation of the scan in "drop" form -/
+theorem replaceGo_cons (old new : Str) (a : Char) (s : Str) (c : Int) (hold : old ≠ []) :
+    replaceGo old new (a :: s) 0 c =
+      if c ≠ 0 ∧ old.isPrefixOf (a :: s) then
+        new ++ replaceGo old new ((a :: s).drop old.length) 0 (if c > 0 then c - 1 else c)
+      else a :: replaceGo old new s 0 c := by
+  rw [replaceGo, replaceGo_skip]
+  cases old with
+  | nil => exact absurd rfl hold
+  | cons d o => rfl
+
+/-- count 0: nothing is replaced -/
+theorem replaceGo_zero (old new s : Str) : replaceGo old new s 0 0 = s := by
+  induction s with
+  | nil => rfl
+  | cons a s ih => rw [replaceGo]; simp [ih]
+
+/-- no occurrence: nothing is replaced -/
+theorem replaceGo_absent (old new s : Str) (c : Int)
+    (h : ∀ j, j ≤ s.length → old.isPrefixOf (s.drop j) = false) : replaceGo old new s 0 c = s := by
+  induction s with
+  | nil => rfl
+  | cons a s ih =>
+    have h0 := h 0 (Nat.zero_le _)
+    rw [List.drop_zero] at h0
+    rw [replaceGo, h0]
+    simp only [Bool.false_eq_true, and_false, if_false]
+    rw [ih (fun j hj => by simpa using h (j + 1) (by simpa using hj))]
+
+/-- the first occurrence is replaced, everything before it is kept, the scan continues behind it -/
+theorem replaceGo_first (old new : Str) (hold : old ≠ []) (pre post : Str) (c : Int) (hc : c ≠ 0)
+    (h : ∀ j, j < pre.length → old.isPrefixOf ((pre ++ old ++ post).drop j) = false) :
+    replaceGo old new (pre ++ old ++ post) 0 c =
+      pre ++ new ++ replaceGo old new post 0 (if c > 0 then c - 1 else c) := by
+  induction pre with
+  | nil =>
+    cases old with
+    | nil => exact absurd rfl hold
+    | cons d o =>
+      have hp : (d :: o).isPrefixOf (d :: (o ++ post)) = true :=
+        List.isPrefixOf_iff_prefix.mpr ⟨post, rfl⟩
+      simp only [List.nil_append, List.cons_append]
+      rw [replaceGo, hp, replaceGo_skip]
+      simp [hc]
+  | cons a pre ih =>
+    have h0 := h 0 (by simp)
+    rw [List.drop_zero] at h0
+    simp only [List.cons_append] at h0 ⊢
+    rw [replaceGo, h0]
+    simp only [Bool.false_eq_true, and_false, if_false]
+    rw [ih (fun j hj => by simpa using h (j + 1) (by simpa using hj))]
+
 end PySpec
 
 /-! ## 1 — strip / lstrip / rstrip -/
@@ -310,7 +400,178 @@ theorem partition_lossless (x : AStr) (sep : Str) (r : Bool) :
     rw [this.1, this.2.1, this.2.2]
     exact (occ_decomp x.s sep i hocc).symm
 
+/-! ## 4 — replace -/
+
+/-- `replace(old, new, count)` with an AnsiString/AnsiStr `new` and a non-empty `old` -/
+theorem replace_text (x : AStr) (old : Str) (v : AStr) (count : Int) (nid : Nat) (h : old ≠ []) :
+    (x.replace old (.astr v) count nid).s = PySpec.replace x.s old v.s count := by
+  have hne : old.isEmpty = false := by cases old <;> simp_all
+  rw [PySpec.replace, hne]
+  exact replace_s x old h (.astr v) trivial (fun s c => PySpec.replaceGo old v.s s 0 c)
+    (fun s c hs => PySpec.replaceGo_absent old v.s s c hs)
+    (fun s => PySpec.replaceGo_zero old v.s s)
+    (fun pre post c hc hs => PySpec.replaceGo_first old v.s h pre post c hc hs) count nid
+
+/-- `replace(old, new, count)` with a plain `str` `new` (no ESC in it) and a non-empty `old` -/
+theorem replace_text_str (x : AStr) (old raw : Str) (count : Int) (nid : Nat) (h : old ≠ [])
+    (hraw : NoEsc raw) :
+    (x.replace old (.str raw) count nid).s = PySpec.replace x.s old raw count := by
+  have hne : old.isEmpty = false := by cases old <;> simp_all
+  rw [PySpec.replace, hne]
+  exact replace_s x old h (.str raw) hraw (fun s c => PySpec.replaceGo old raw s 0 c)
+    (fun s c hs => PySpec.replaceGo_absent old raw s c hs)
+    (fun s => PySpec.replaceGo_zero old raw s)
+    (fun pre post c hc hs => PySpec.replaceGo_first old raw h pre post c hc hs) count nid
+
+/-- the empty `old` (both kinds of `new`): `new` is inserted before every character and at the end -/
+theorem replace_text_empty (x : AStr) (new : AStr.Repl) (hnew : ReplOk new) (count : Int) (nid : Nat) :
+    (x.replace [] new count nid).s = PySpec.replace x.s [] (replText new) count := by
+  rw [PySpec.replace]
+  exact replace_empty_s x new hnew (fun s c => PySpec.replaceEmpty (replText new) s c)
+    (fun s => by cases s <;> simp [PySpec.replaceEmpty])
+    (fun c hc => by simp [PySpec.replaceEmpty, hc])
+    (fun a s c hc => by simp [PySpec.replaceEmpty, hc]) count nid
+
+/-! ## 5 — expandtabs -/
+
+/-- `expandtabs(tabsize)`: every tab becomes exactly `tabsize` spaces (the documented deviation
+    from `str.expandtabs`, which pads to the next tab stop) -/
+theorem expandtabs_text (x : AStr) (k : Int) (nid : Nat) :
+    (x.expandtabs k nid).s = PySpec.replace x.s ['\t'] (List.replicate k.toNat ' ') (-1) := by
+  unfold AStr.expandtabs
+  refine replace_text_str x ['\t'] _ (-1) nid (by simp) ?_
+  intro hmem
+  have := List.eq_of_mem_replicate hmem
+  exact absurd this (by decide)
+
 /-! ## 6 — case methods -/
 
 /-- case methods: CPython supplies the converted text, the model stores it unchanged -/
 theorem mapText_text (x : AStr) (t : Str) : (x.mapText t).s = t := rfl
+
+/-! ## 7 — split / rsplit / splitlines -/
+
+/-- the model of `str.split(sep, maxsplit)` is lossless … -/
+theorem split_join (s sep : Str) (m : Int) : joinSep sep (Py.splitSep s sep m) = s :=
+  splitSep_join s sep m
+
+/-- … and so is `rsplit` -/
+theorem rsplit_join (s sep : Str) (m : Int) : joinSep sep (Py.rsplitSep s sep m) = s :=
+  rsplitSep_join s sep m
+
+/-- `maxsplit ≥ 0` bounds the number of pieces -/
+theorem split_maxsplit (s sep : Str) (m : Int) (hm : 0 ≤ m) :
+    (Py.splitSep s sep m).length ≤ m.toNat + 1 :=
+  splitSepAux_length sep _ _ _ m hm
+
+theorem rsplit_maxsplit (s sep : Str) (m : Int) (hm : 0 ≤ m) :
+    (Py.rsplitSep s sep m).length ≤ m.toNat + 1 := by
+  unfold Py.rsplitSep
+  rw [List.length_reverse, List.length_map]
+  exact split_maxsplit _ _ m hm
+
+/-- The offsets `_split` recovers (`idx = find(piece, idx); idx += len(piece) + len(sep)`) are the
+    TRUE offsets: the `k`-th one is the total length of the earlier pieces and separators. -/
+theorem pieceOffsets_sep (s sep : Str) (m : Int) (r : Bool) (k : Nat) :
+    let ps := if r then Py.rsplitSep s sep m else Py.splitSep s sep m
+    (AStr.pieceOffsets s sep.length ps 0)[k]? =
+      ps[k]?.map (fun p => (((ps.take k).map (fun q => q.length + sep.length)).sum, p.length)) := by
+  intro ps
+  have hj : s = [] ++ joinSep sep ps := by
+    cases r
+    · exact (splitSep_join s sep m).symm
+    · exact (rsplitSep_join s sep m).symm
+  have hne : ps ≠ [] := by
+    cases r
+    · exact splitSep_ne s sep m
+    · exact rsplitSep_ne s sep m
+  have h := (join_laid sep ps hne s [] hj).1
+  simp only [List.length_nil] at h
+  rw [h, offsetsFrom_getElem?]
+  simp
+
+/-- … and the slice of the base text taken there is the piece -/
+theorem pieceOffsets_sep_slice (s sep : Str) (m : Int) (r : Bool) (k : Nat) (p : Str) :
+    let ps := if r then Py.rsplitSep s sep m else Py.splitSep s sep m
+    ps[k]? = some p →
+    pySlice s (((ps.take k).map (fun q => q.length + sep.length)).sum)
+      (((ps.take k).map (fun q => q.length + sep.length)).sum + p.length) = p := by
+  intro ps hk
+  have hj : s = [] ++ joinSep sep ps := by
+    cases r
+    · exact (splitSep_join s sep m).symm
+    · exact (rsplitSep_join s sep m).symm
+  have hne : ps ≠ [] := by
+    cases r
+    · exact splitSep_ne s sep m
+    · exact rsplitSep_ne s sep m
+  have htext := pieceOffsets_text s sep.length ps 0 (join_laid sep ps hne s [] hj).2
+  have hoff := pieceOffsets_sep s sep m r k
+  have := congrArg (fun l => l[k]?) htext
+  simp only [List.getElem?_map] at this
+  rw [hoff, hk] at this
+  simpa [pySlice] using this
+
+/-- `split(sep, maxsplit)` / `rsplit(sep, maxsplit)` with a non-empty separator: the texts of the
+    pieces are the pieces of `str.split` / `str.rsplit` -/
+theorem split_text (x : AStr) (sep : Str) (m : Int) (r : Bool) (ps : List AStr) (hsep : sep ≠ [])
+    (h : x.splitGen (some sep) m r = .ok ps) :
+    ps.map (·.s) = (if r then Py.rsplitSep x.s sep m else Py.splitSep x.s sep m) := by
+  cases sep with
+  | nil => exact absurd rfl hsep
+  | cons c sp =>
+    simp only [AStr.splitGen, Except.ok.injEq] at h
+    subst h
+    rw [piecesAt_s]
+    have hj : x.s = [] ++ joinSep (c :: sp)
+        (if r then Py.rsplitSep x.s (c :: sp) m else Py.splitSep x.s (c :: sp) m) := by
+      cases r
+      · exact (splitSep_join x.s _ m).symm
+      · exact (rsplitSep_join x.s _ m).symm
+    have hne : (if r then Py.rsplitSep x.s (c :: sp) m else Py.splitSep x.s (c :: sp) m) ≠ [] := by
+      cases r
+      · exact splitSep_ne x.s _ m
+      · exact rsplitSep_ne x.s _ m
+    exact pieceOffsets_text x.s _ _ 0 (join_laid (c :: sp) _ hne x.s [] hj).2
+
+/-- the empty separator is `str`'s ValueError -/
+theorem split_empty_sep (x : AStr) (m : Int) (r : Bool) :
+    x.splitGen (some []) m r = .error .valueError := rfl
+
+/-- whitespace splitting (`sep=None`): holds in full.  The offsets are recovered by a `find` from
+    the previous end; they may be EARLIER than the true ones only for an empty piece (none occurs
+    here), and in any case the slice found is the piece (`SL.pieceOffsets_text`). -/
+theorem splitWs_text (x : AStr) (m : Int) (r : Bool) (ps : List AStr)
+    (h : x.splitGen none m r = .ok ps) :
+    ps.map (·.s) = (if r then Py.rsplitWs x.s m else Py.splitWs x.s m) := by
+  simp only [AStr.splitGen, Except.ok.injEq] at h
+  subst h
+  rw [piecesAt_s]
+  apply pieceOffsets_sub
+  cases r
+  · exact splitWs_sub x.s m
+  · exact rsplitWs_sub x.s m
+
+/-- `splitlines(keepends)`: holds in full (an empty line IS found "early", at the previous end
+    instead of behind the line break — see the example below — but its text is empty either way) -/
+theorem splitlines_text (x : AStr) (keep : Bool) :
+    (x.splitlines keep).map (·.s) = Py.splitlines x.s keep := by
+  unfold AStr.splitlines
+  rw [piecesAt_s]
+  exact pieceOffsets_sub _ _ (splitlines_sub x.s keep)
+
+/-! ## `find` / `rfind` (used above; restated here for reference) -/
+
+/-- `s.find(sub, start)` is the first position `≥ start` where `sub` is a prefix of the rest -/
+theorem find_first (s sub : Str) (st i : Nat) :
+    Py.find s sub st = some i ↔
+      i ≤ s.length ∧ st ≤ i ∧ sub.isPrefixOf (s.drop i) = true ∧
+        ∀ j, j < i → st ≤ j → sub.isPrefixOf (s.drop j) = false :=
+  find_some_iff s sub st i
+
+/-- `s.rfind(sub)` is the last such position -/
+theorem rfind_last (s sub : Str) (i : Nat) :
+    Py.rfind s sub = some i ↔
+      i ≤ s.length ∧ sub.isPrefixOf (s.drop i) = true ∧
+        ∀ j, i < j → j ≤ s.length → sub.isPrefixOf (s.drop j) = false :=
+  rfind_some_iff s sub i
